@@ -16,7 +16,7 @@ RULE = (
     "every binary image of the declared grid shapes x every periodicity mask (Cartesian) / both periodic_z settings (cylindrical); "
     "reference labelling by an independent union-find carrying integer period offsets; non-trivial = image has at least one "
     "component; distinctness by (grid spec, image bits)"
-    " plus all bodies of revolution over a width alphabet on 8x6 / 8x8 cylindrical grids, UnitGrid objects, bool / int8 / float32 storage of the binary image at the public entry point, and alternating-periodicity histories (every 3x3 and 2x2x2 image under two masks alternately, fresh fork per chunk) and shared-grid-object histories (every image of a 3x4 cylindrical / anisotropic 3x3 grid analysed in sequence on ONE grid object)"
+    " plus all bodies of revolution over a width alphabet on 8x6 / 8x8 cylindrical grids, UnitGrid objects, bool / int8 / float32 storage of the binary image at the public entry point, and alternating-periodicity histories (every 3x3 and 2x2x2 image under two masks alternately, fresh fork per chunk) and every union of two wrapped rectangles (5 sizes x 64 positions) on an 8x8 grid; shared-grid-object histories (every image of a 3x4 cylindrical / anisotropic 3x3 grid analysed in sequence on ONE grid object)"
 )
 ASSUMPTIONS = [
     "exhaustive only up to the declared shapes (<= 20 cells); larger images are a fixed structured catalogue, not exhaustive",
@@ -90,10 +90,22 @@ def blocks(tier, seed):
             out.append({"shared": {"kind": "cyl", "shape": [3, 4], "R": 3.0, "z": [-1.0, 2.2], "periodic_z": pz}, "part": part})
     for mask in ((True, False), (True, True)):
         out.append({"shared": cart((3, 3), mask, dx=[1.6, 0.5], origin=[-3.7, 2.25])})
+    # larger grid, systematic family: every union of two wrapped axis-aligned rectangles (5 sizes x 64 positions each) on 8x8
+    for mask in (itertools.product((False, True), repeat=2) if tier == "thorough" else ((True, True), (False, True))):
+        for size_i in range(len(RECT_SIZES)):
+            for half in (0, 1):
+                out.append({"rectpairs": {"mask": list(mask), "size": size_i, "half": half}})
     # catalogue of larger structured images (complement; enumerated completely, but not an exhaustive image space)
     for mask in itertools.product((False, True), repeat=2):
         out.append({"grid": cart((12, 12), mask), "catalogue": seed % 4, "prefix": [], "via_field": True})
     return out
+
+
+RECT_SIZES = [(1, 3), (3, 1), (2, 2), (6, 1), (1, 6)]
+
+
+def rect_cells(n, x0, y0, w, h):
+    return {((x0 + i) % n, (y0 + j) % n) for i in range(w) for j in range(h)}
 
 
 def catalogue(variant):
@@ -132,6 +144,23 @@ def cases(block):
         for i in range(0, len(seq), 64):
             yield {"sequence": seq[i:i + 64]}
             yield {"sequence": seq[i + 1:i + 65]}
+        return
+    if "rectpairs" in block:
+        rp = block["rectpairs"]
+        n = 8
+        g = cart((n, n), rp["mask"])
+        w1, h1 = RECT_SIZES[rp["size"]]
+        rects2 = [(x, y, w, h) for (w, h) in RECT_SIZES for x in range(n) for y in range(n)]
+        for x1 in range(rp["half"] * 4, rp["half"] * 4 + 4):
+            for y1 in range(n):
+                A = rect_cells(n, x1, y1, w1, h1)
+                for (x2, y2, w2, h2) in rects2:
+                    if (w2, h2, x2, y2) < (w1, h1, x1, y1):
+                        continue  # unordered pairs
+                    img = np.zeros((n, n), bool)
+                    for c in A | rect_cells(n, x2, y2, w2, h2):
+                        img[c] = True
+                    yield {"grid": g, "bits": "".join("1" if b else "0" for b in img.ravel()), "via_field": False, "rectpair": True}
         return
     if "shared" in block:
         g = block["shared"]
@@ -214,6 +243,8 @@ def run_case(case, ctx):
     ctx.check("C02.no-raise", True)
     if case.get("profile") is not None:
         ctx.count("cyl-profile-images")
+    if case.get("rectpair"):
+        ctx.count("two-rectangle-images-8x8")
     comps = geom.components(img, periodic)
     cellvol = geom.cell_volumes(g)
     if cyl:
@@ -410,4 +441,4 @@ def run_case(case, ctx):
 
 def expected_positive(tier):
     return ["C02.bijection", "C02.disjoint", "C02.omitted", "C02.cyl-empty", "C02.inbox", "C02.entry-point", "winding-components",
-            "components-crossing-a-periodic-boundary", "corner-crossing-components", "omitted-components", "cyl-off-axis-only", "multi-component-images", "cyl-profile-images", "alternating-mask-sequences", "shared-grid-object-sequences"]
+            "components-crossing-a-periodic-boundary", "corner-crossing-components", "omitted-components", "cyl-off-axis-only", "multi-component-images", "cyl-profile-images", "alternating-mask-sequences", "shared-grid-object-sequences", "two-rectangle-images-8x8"]
